@@ -1,4 +1,5 @@
 import FinamModel.Sched
+import FinamModel.Props.C13
 import FinamModel.Translated.DelayFixed_with_delay
 import FinamModel.Translated.DelayToPush_with_delay
 import FinamModel.Translated.DelayToPull_with_delay
@@ -102,5 +103,67 @@ theorem tr_DelayToPush_with_delay (push : Option Int) (init t : Int) :
       simp [h, this, Py.unwrap, bind, Except.bind]
     · have : t ≤ p := by omega
       simp [h, this, Py.unwrap, bind, Except.bind]
+
+/-! ### the property, stated on the regenerated definitions
+
+The theorems above say "translated code = model"; `Props/C13.lean` says "model satisfies the property".  Composed:
+the property as a statement about the definitions that were produced from `/repo/src/finam/adapters/time.py` in this run. -/
+
+/-- **C13, fixed delay, on the code**: a request for `t ≥ start` is forwarded as `max (t - delay) start` -/
+theorem code_DelayFixed_request (d init t : Int) (hd : 0 ≤ d) (ht : init ≤ t) :
+    Tr.DelayFixed_with_delay d init t = .ok (max (t - d) init) := by
+  rw [tr_DelayFixed_with_delay [] d init t, dfix_request [] d init t hd ht]
+
+/-- **C13, delay to push, on the code**: `min t (newest publication)` once something was published -/
+theorem code_DelayToPush_request (newest init t : Int) :
+    Tr.DelayToPush_with_delay (some newest) init t = .ok (min t newest) := by
+  rw [tr_DelayToPush_with_delay]
+  simp only [imin]
+  by_cases h : t ≤ newest
+  · simp [h, Int.min_eq_left h]
+  · have h' : newest ≤ t := by omega
+    simp [h, Int.min_eq_right h']
+
+/-- one request through the translated `DelayToPull`: `with_delay` (which seeds the history), then `_pulled` -/
+def codePullStep (n : Nat) (init add : Int) (tab : List Int) (t : Int) : Except Err (Int × List Int) := do
+  let (fwd, tab1) ← Tr.DelayToPull_with_delay tab init add t
+  let tab2 ← Tr.DelayToPull__pulled tab1 (n : Int) t
+  pure (fwd, tab2)
+
+/-- the request history of the translated adapter after the requests `h` -/
+def codeTable (n : Nat) (init add : Int) : List Int → List Int → Except Err (List Int)
+  | tab, [] => .ok tab
+  | tab, t :: h => do
+    let (_, tab') ← codePullStep n init add tab t
+    codeTable n init add tab' h
+
+theorem codePullStep_eq (n : Nat) (init add : Int) (tab : List Int) (t : Int) :
+    codePullStep n init add tab t =
+      .ok ((Ad.dpull 0 n add init).withDelay [tab] t, trimTo n ((if tab.isEmpty then [init] else tab) ++ [t])) := by
+  unfold codePullStep
+  have h1 := tr_DelayToPull_with_delay [tab] 0 n add init t
+  simp only [List.getD_cons_zero] at h1
+  simp [h1, tr_DelayToPull__pulled]
+
+theorem codeTable_eq (n : Nat) (init add : Int) : ∀ (h tab : List Int),
+    codeTable n init add tab h =
+      .ok (h.foldl (fun tab t => trimTo n ((if tab.isEmpty then [init] else tab) ++ [t])) tab) := by
+  intro h
+  induction h with
+  | nil => intro tab; rfl
+  | cons t h ih => intro tab; simp [codeTable, codePullStep_eq, ih]
+
+/-- **C13, delay to pull, on the code**: after any request history `h` through the translated `with_delay` /
+    `_pulled`, a request for `t` is forwarded as the time of the `n`-th previous request minus the extra delay, not
+    before the start time and never after `t` -/
+theorem code_DelayToPull_request (n : Nat) (hn : 0 < n) (init add : Int) (h : List Int) (t : Int) :
+    ∃ tab, codeTable n init add [] h = .ok tab ∧
+      ∃ tab', Tr.DelayToPull_with_delay tab init add t = .ok (imin t (max (nthPrev n init h - add) init), tab') := by
+  refine ⟨tableAfter n init h, by rw [codeTable_eq]; rfl, ?_⟩
+  have h1 := tr_DelayToPull_with_delay [tableAfter n init h] 0 n add init t
+  simp only [List.getD_cons_zero] at h1
+  have h2 := dpull_request [tableAfter n init h] 0 n hn add init t h (by simp)
+  rw [h2] at h1
+  exact ⟨_, h1⟩
 
 end Finam.Props.C13
